@@ -141,6 +141,10 @@ struct Engine {
   std::function<Result(const Plan&, Stats&)> execute;
 };
 
+// set by engine_main; read by engines that finish a run from a static destructor (E1 exit probe)
+inline bool g_engine_replay = false;
+inline std::string g_engine_outdir = "/tmp";
+
 inline double now_s() {
   using namespace std::chrono;
   return duration<double>(steady_clock::now().time_since_epoch()).count();
@@ -167,6 +171,8 @@ inline int engine_main(int argc, char** argv, Engine& eng) {
   }
   setvbuf(stdout, nullptr, _IOLBF, 0);
   Stats stats;
+  g_engine_replay = mode == "--replay";
+  if (opts.count("outdir")) g_engine_outdir = opts["outdir"];
   if (mode == "--replay") {
     Plan p;
     if (!Plan::load(opts["file"], p)) {
